@@ -584,6 +584,19 @@ fn chain(obs: &mut Obs, rng: &mut Rng, b0: &[u8], fmt_k: u64, how: &dyn Fn() -> 
                 obs.count("b0_header_shorter_than_18_words");
                 d.retain(|(w, _)| w != "header");
             }
+            // Known finding C11-header-string-length-one-too-large-accepted. Trigger (own reader): the length byte of the
+            // coding scheme is exactly 40 or that of the family exactly 20. Deviation: TFtoPL §52 reports "String is too
+            // long" (the font is then outside the quantifier); the reader under test builds `first character + blanks`
+            // of length 39 / 19, which passes its own length check, so no warning is raised and the canonical font
+            // carries that string. Attributed when the header is the ONLY difference.
+            if r0.header.len() >= 18 && (r0.header[2][0] == 40 || r0.header[12][0] == 20) && d.iter().all(|(w, _)| w == "header") && !d.is_empty() {
+                obs.known(
+                    "C11-header-string-length-one-too-large-accepted",
+                    witness(json!({"coding_scheme_length_byte": r0.header[2][0], "family_length_byte": r0.header[12][0],
+                                   "differences": d.iter().take(4).collect::<Vec<_>>()})),
+                );
+                return ChainResult::Reported;
+            }
             if let Some((what, _)) = d.first() {
                 obs.violation(
                     format!("font-changed(own-reader):{what}"),
@@ -1311,6 +1324,18 @@ impl Monitor for M {
                             // a font whose seven-bit-safe flag was set by an independent tool: PLtoTF must accept the
                             // flag without a warning exactly when the font IS seven-bit safe (own judgement from the
                             // raw tables, RawFont::seven_bit_safe)
+                            // a header string whose length byte is one more than fits (40 for the coding scheme, 20 for the
+                            // family): TFtoPL §52 reports "String is too long", so the font is outside the quantifier
+                            // and must be skipped with that warning - a reader that accepts it silently changes the string
+                            if r2.header.len() >= 18 && rng.chance(1, 16) {
+                                if rng.coin() {
+                                    r2.header[2][0] = 40;
+                                } else {
+                                    r2.header[12][0] = 20;
+                                }
+                                log.push("header string length byte set to one more than fits");
+                                obs.count("feature:header_string_length_byte_too_large_by_one");
+                            }
                             if r2.header.len() >= 18 && rng.coin() && r2.seven_bit_safe() == Some(true) {
                                 r2.header[17][0] = 128;
                                 log.push("seven-bit-safe flag set (font is seven-bit safe by own judgement)");
